@@ -7,6 +7,7 @@ from pylife.materiallaws.notch_approximation_law import Binned
 
 from ..sym import sym_and, sym_or, sym_not, s_eq, SymReal
 from ..util import eq_struct, mutated
+from .. import npfacade
 
 PROPERTY = "C07"
 ENCODED = ["pylife.materiallaws.notch_approximation_law:Binned.__init__",
@@ -178,6 +179,8 @@ def _scalarize(r):
 
 def run(ctx, case):
     _apply_canary(ctx)
+    if ctx.sym:
+        ctx.patch(NAL, "np", npfacade.FACADE)      # numpy functions without object loop (self-tested facade)
     api, n, kind = case["api"], case["bins"], case["kind"]
     law = StubLaw(ctx, case["law"])
     lmax = ctx.real("Lmax")
@@ -240,6 +243,13 @@ def run(ctx, case):
             return {"result": r}
         vals = _scalarize(r)
         ctx.claim(eq_struct(vals, [_scalarize(ra)[0], _scalarize(rb)[0]]), "series_equals_scalar", (vals, ra, rb))
+        # a look-up does not depend on earlier look-ups of the same object: same length, same first point, other second point
+        b = Binned(law, lmax, n)
+        _call(b, law, api, ser)
+        ser2 = pd.Series(np.array([La, Lb / 2], dtype=object if ctx.sym else np.float64))
+        r2 = _scalarize(_call(b, law, api, ser2))
+        rc = single(Lb / 2)
+        ctx.claim(eq_struct(r2, [_scalarize(ra)[0], _scalarize(rc)[0]]), "series_equals_scalar", ("second look-up of the same object", r2, ra, rc))
         return {"result": vals}
 
     if kind == "multi":
